@@ -319,6 +319,10 @@ func (w *World) CopyAndSync() (*meta.DB, string, error) {
 	return db, cp, nil
 }
 
+// SyncInPlace runs the repository's forced recount on the live DB (the world must be discarded
+// afterwards: its counters are no longer the incrementally kept ones).
+func (w *World) SyncInPlace() error { return w.DB.SyncCounters() }
+
 func CloseCopy(db *meta.DB, path string) {
 	db.Close()
 	os.Remove(path)
